@@ -173,7 +173,7 @@ func (s *State) jump(from, to *ssa.BasicBlock) {
 		}
 	}
 	// leave loops that do not contain the target
-	for len(s.loops) > 0 && !s.loops[len(s.loops)-1].L.Body[to] {
+	for len(s.loops) > 0 && !s.loops[len(s.loops)-1].L.Region[to] {
 		s.evalSteps(s.loops[len(s.loops)-1], true, nil)
 		s.loops = s.loops[:len(s.loops)-1]
 	}
